@@ -298,7 +298,16 @@ func queryCases(r *core.Run) {
 							ok = false
 							break
 						}
-						s, good := w.encrypt(r, v.kind, val)
+						toStore := val
+						if len(val) > 0 && rd.Chance(20) {
+							// the value arrives already protected for this client (AcraWriter, or copied from another
+							// protected column): it must get the index of its plaintext and be found like the others
+							if pre, okPre := env.Protect(r, core.Pick(rd, []string{"struct", "block"}), w.kv, val); okPre {
+								toStore = pre
+								r.Tag("row:pre-encrypted")
+							}
+						}
+						s, good := w.encrypt(r, v.kind, toStore)
 						if !good {
 							ok = false
 							break
